@@ -300,7 +300,7 @@ class BzrGitMapping(foreign.VcsMapping):
                 (path, unusual_file_modes[path])
                 for path in sorted(unusual_file_modes.keys())
             ]
-            rev.properties["file-modes"] = bencode.bencode(ret)
+            rev.properties["file-modes"] = bencode.bencode(ret).decode("utf-8")
 
     def export_unusual_file_modes(self, rev):
         """Export unusual file modes from revision properties.
@@ -316,7 +316,10 @@ class BzrGitMapping(foreign.VcsMapping):
         except KeyError:
             return {}
         else:
-            return dict(bencode.bdecode(file_modes.encode("utf-8")))
+            return {
+                decode_git_path(path): mode
+                for (path, mode) in bencode.bdecode(file_modes.encode("utf-8"))
+            }
 
     def _generate_git_svn_metadata(self, rev, encoding):
         try:
